@@ -146,8 +146,9 @@ def check(fb, ctx):
     for (kind, field), n in need.items():
         got_n = count(kind, field)
         ctx.check(got_n >= (1 if factored else n), "POSITIONS", f"{ {'pred':'3.3 terms','op33':'3.3 operators','op31':'3.1 operators'}[kind] } scanned in `.{field}` ({n} place(s): rules{' and check queries' if n == 2 else ''})", f"POSITIONS|{kind}|{field}", f"found {got_n} scan(s) of `.{field}`, expected {n}: a position that can hold the feature is not visited", f"{gb['file']}:{gb['line']}")
+    p_rules = hirq.param_ids(gh0, 1)     # get_schema_version(facts, rules, checks, scopes): positional
     qs = [n for n in find_all(gh["body"], lambda z: z.get("k") == "mcall" and z.get("name") in ("any", "all", "for_each", "map", "flat_map", "iter")) if find_all(n.get("recv", {}), lambda z: z.get("k") == "field" and z.get("name") == "queries")]
-    rl = [n for n in find_all(gh["body"], lambda z: z.get("k") == "mcall" and z.get("name") in ("any", "all")) if find_all(n.get("recv", {}), lambda z: is_local(z, "rules") or (z.get("k") == "field" and z.get("name") == "rules"))]
+    rl = [n for n in find_all(gh["body"], lambda z: z.get("k") == "mcall" and z.get("name") in ("any", "all")) if find_all(n.get("recv", {}), lambda z: hirq.is_lid(z, p_rules) or (z.get("k") == "field" and z.get("name") == "rules"))]
     ctx.check(len(qs) >= 2 and len(rl) >= 2, "POSITIONS", "both rules and check queries are scanned (3.1 and 3.3)", "POSITIONS|rules-and-queries", f"found {len(rl)} scans over rules and {len(qs)} over check queries", f"{gb['file']}:{gb['line']}")
     # check kinds and scopes
     kinds = {}
@@ -176,6 +177,7 @@ def check(fb, ctx):
     ctx.check(ok and ok2, "VERSION", "flags -> declared version (3.3 first, then 3.1, else minimum)", "VERSION|version", "SchemaVersion::version must return DATALOG_3_3 for contains_v3_3, DATALOG_3_1 for scopes|v3_1|check_all, MIN otherwise", f"{vb['file']}:{vb['line']}")
     cb = fb.body(D + "::SchemaVersion::check_compatibility")
     ch = fb.hir_of(cb)
+    p_version = hirq.param_ids(ch, 1)    # check_compatibility(&self, version): positional
     # every flag has a refusing branch guarded by `version < <its version>`
     top = strip(hirq.tail(ch["body"]))
     guards = {}
@@ -185,7 +187,7 @@ def check(fb, ctx):
         if not isinstance(n, dict) or n.get("k") != "if":
             return
         c = strip(n["cond"])
-        lts = [x for x in find_all(c, lambda z: z.get("k") == "binary" and z.get("op") == "Lt" and is_local(strip(z["a"]), "version"))]
+        lts = [x for x in find_all(c, lambda z: z.get("k") == "binary" and z.get("op") == "Lt" and hirq.is_lid(strip(z["a"]), p_version))]
         bound = [(strip(x["b"]).get("res", {}).get("path") or "").split("::")[-1] for x in lts]
         flags = [z["name"] for z in find_all(c, lambda z: z.get("k") == "field" and z.get("name", "").startswith("contains_"))]
         cur = outer + bound
@@ -201,7 +203,7 @@ def check(fb, ctx):
     node = top
     while isinstance(node, dict) and node.get("k") == "if":
         c = strip(node["cond"])
-        lts = [x for x in find_all(c, lambda z: z.get("k") == "binary" and z.get("op") == "Lt" and is_local(strip(z["a"]), "version"))]
+        lts = [x for x in find_all(c, lambda z: z.get("k") == "binary" and z.get("op") == "Lt" and hirq.is_lid(strip(z["a"]), p_version))]
         bound = [(strip(x["b"]).get("res", {}).get("path") or "").split("::")[-1] for x in lts]
         flags = [z["name"] for z in find_all(c, lambda z: z.get("k") == "field" and z.get("name", "").startswith("contains_"))]
         if flags and hirq.err_variant(node["then"]) and bound:
